@@ -2,92 +2,165 @@
 import re
 
 from .. import lib, mir
-from ..mir import render
+from .. import lib_sec as S
+from ..mir import render, strip_generics
 
 EXPLANATION = ("State::finish returns Ok only when the remote identity key is present and is_valid_signature is true; the verified message is "
                "concat[STATIC_KEY_DOMAIN, static DH key obtained from the snow session], verified with the very identity key that is "
                "returned; the key returned is turned into the PeerId by both upgrade paths; Output::new is called only in finish and "
                "finish only after the three handshake steps of each role; into_authentic signs the same concat with the same domain "
                "constant; both roles feed the configured prologue to the snow builder; the identity key/signature stored for verification "
-               "are the ones received in the remote's payload.")
+               "are the ones received in the remote's payload.  Values are matched by origin (which field / call produced them; "
+               "captured variables are replaced by what the enclosing function captured), success tests by their Ok/Some edges "
+               "whatever the syntax (`?`, match, if-let, ok_or..), never by the spelling of locals, parameters or closure parameters.")
 ASSUMPTIONS = ["cryptographic soundness of snow (Noise XX) and of libp2p_identity signature verification", "message mutation behaviour is not executed"]
 N = "libp2p_noise"
+VERIFY = r"libp2p_identity::PublicKey::verify$"
+DOMAIN = r"protocol::STATIC_KEY_DOMAIN$"
+
+
+def is_ok_of_self_field(e, field):
+    """e is the success payload of `self.<field>` (`self.f?`, `self.f.ok_or(..)?`, `match self.f { Some(k) => k ..}`)."""
+    e = S.peel(S.norm(e))
+    return e[0] == "call" and e[1] == "ok" and S.self_field(e[2][0], field)
+
+
+def signed_message(e, key_pred):
+    """e is `[STATIC_KEY_DOMAIN.as_bytes(), <key>.as_ref()].concat()` (through view conversions) with key_pred(key expr)."""
+    e = S.peel(e)
+    if not (e[0] == "call" and re.search(r"slice::concat$|slice::<impl \[T\]>::concat$|Concat.*::concat$", strip_generics(e[1])) and e[2]):
+        return False
+    arr = S.peel(e[2][0])
+    if not (arr[0] == "agg" and len(arr[4]) == 2):
+        return False
+    d, k = arr[4][0][1], arr[4][1][1]
+    d_ok = any(s[0] == "namedconst" and re.search(DOMAIN, s[1]) for s in mir.walk(d)) and not S.has(d, lambda s: s[0] in ("arg", "local", "upvar"))
+    return d_ok and key_pred(S.peel(k))
 
 
 def check(ctx):
     prog = ctx.prog
     f = ctx.body(N, r"io::handshake::State::finish$")
-    oks = [mir.Site(f, x[1], x[2]) for x in f.defs[0] if x[0] == "stmt" and render(f.rvalue_expr(x[3])).startswith("std::result::Result::Ok{")]
+    oks = S.ok_sites(f)
     ctx.floor("finish", "Ok return", oks, 1)
+    mit = f.call_sites(r"io::handshake::map_into_transport$")
+    ctx.floor("finish", "map_into_transport call", mit, 1)
+
+    def dh_key(e):
+        """the static DH key of the session: first component of map_into_transport(self.io)'s success payload"""
+        e = S.peel(S.norm(e))
+        return (e[0] == "field" and e[2] == "0" and e[1][0] == "call" and e[1][1] == "ok" and e[1][2][0][0] == "call"
+                and re.search(r"handshake::map_into_transport$", strip_generics(e[1][2][0][1])) is not None)
+
+    # the signature test: either `sig_opt.is_some_and(|s| key.verify(msg, s))` or a direct `key.verify(..)` call in finish
+    def sig_test(c):
+        if c[0] != "call":
+            return False
+        n = strip_generics(c[1])
+        if re.search(VERIFY, n):
+            return True
+        if re.search(r"Option::is_some_and$", n) and S.self_field(c[2][0], "dh_remote_pubkey_sig"):
+            cls = [a for a in c[2] if a[0] == "closure"]
+            if len(cls) == 1:
+                cl, _ = S.closure_env(prog, f, cls[0])
+                r0 = [cl.site_expr(s) for s in S.ret_sites(cl)]
+                return len(r0) == 1 and r0[0][0] == "call" and re.search(VERIFY, strip_generics(r0[0][1])) is not None
+        return False
+    valid, invalid = S.truth_edges(f, sig_test)
+    have_key, _ = S.outcome_edges(f, lambda v: S.self_field(v, "id_remote_pubkey"))
     for s in oks:
-        ctx.guarded("finish", "Ok requires a valid signature", s,
-                    lambda c, r, l: l == "true" and r.startswith("std::option::Option::is_some_and(std::option::Option::as_ref(self.dh_remote_pubkey_sig), closure:"), "is_valid_signature")
-        ctx.guarded("finish", "Ok requires a remote identity key", s,
-                    lambda c, r, l: l == "Continue" and "ok_or_else(self.id_remote_pubkey" in r, "id_remote_pubkey is Some")
-        ctx.guarded("finish", "Ok requires a completed transport transition", s,
-                    lambda c, r, l: l == "Continue" and r.startswith("discr(<std::result::Result as std::ops::Try>::branch(libp2p_noise::io::handshake::map_into_transport(self.io)))"), "map_into_transport Ok")
-        r = render(f.site_expr(s))
-        ctx.ob("finish", "returned key is the verified identity key", re.search(r"^std::result::Result::Ok\{0: tuple\{0: <std::result::Result as std::ops::Try>::branch\(std::option::Option::ok_or_else\(self\.id_remote_pubkey", r) is not None, s.loc(), r[:200])
+        S.guarded(ctx, "finish", "Ok requires a valid signature", s, valid, "is_valid_signature")
+        S.guarded(ctx, "finish", "Ok requires a remote identity key", s, have_key, "id_remote_pubkey is Some")
+        tr = set()
+        for m in mit:
+            tr |= S.call_outcome_edges(f, m)[0]
+        S.guarded(ctx, "finish", "Ok requires a completed transport transition", s, tr, "map_into_transport Ok")
+        e = f.site_expr(s)
+        tup = dict(e[4]).get("0")
+        key = dict(tup[4]).get("0") if tup and tup[0] == "agg" else None
+        ctx.ob("finish", "returned key is the verified identity key", key is not None and is_ok_of_self_field(key, "id_remote_pubkey"), s.loc(), S.nrender(e)[:200])
     bad = f.agg_sites(r"^libp2p_noise::Error$", "BadSignature")
     for s in bad:
-        ctx.guarded("finish", "BadSignature exactly when verification fails", s, lambda c, r, l: l == "false" and r.startswith("std::option::Option::is_some_and("), "!is_valid_signature")
-    # closure: verify(id_pk, concat[DOMAIN, pubkey], sig)
-    sw = [bi for bi in f.live if f.switch_info(bi) and render(f.switch_info(bi)[0]).startswith("std::option::Option::is_some_and(")]
-    ctx.floor("finish", "is_some_and test", sw, 1)
-    if sw:
-        cond = f.switch_info(sw[0])[0]
-        cl = lib.closure_of(prog, f, cond)
-        ctx.use(cl)
-        up = [x for x in mir.walk(cond) if x[0] == "closure"][0][2]
-        ups = [render(u) for u in up]
-        ctx.ob("verify", "closure captures the identity key and the session's static key",
-               any("ok_or_else(self.id_remote_pubkey" in u for u in ups) and any("map_into_transport(self.io))@Continue.0.0" in u for u in ups), "%s:%d" % (cl.file, cl.line), str(ups)[:260])
-        v = cl.call_sites(r"libp2p_identity::PublicKey::verify$")
-        ctx.floor("verify", "PublicKey::verify call", v, 1)
-        for s in v:
-            e = cl.site_expr(s)
-            a0, a1, a2 = [render(x) for x in e[2]]
-            ctx.ob("verify", "verified with the remote identity key", a0 == "^id_pk", s.loc(), a0)
-            ctx.ob("verify", "message = DOMAIN ++ static DH key", a1 == "<std::vec::Vec as std::ops::Deref>::deref(std::slice::concat(array{0: core::str::as_bytes(const:libp2p_noise::protocol::STATIC_KEY_DOMAIN), 1: libp2p_noise::<protocol::PublicKey as std::convert::AsRef>::as_ref(^pubkey)}))",
-                   s.loc(), a1[:220])
-            ctx.ob("verify", "signature is the received one", a2 == "<std::vec::Vec as std::ops::Deref>::deref(s)", s.loc(), a2)
-        r0 = [x for x in cl.defs[0]]
-        ctx.ob("verify", "closure result is the verify() result", len(r0) == 1 and r0[0][0] == "call" and v and r0[0][1] == v[0].bb, "%s:%d" % (cl.file, cl.line), "is_valid_signature = id_pk.verify(..)")
+        S.guarded(ctx, "finish", "BadSignature exactly when verification fails", s, invalid, "!is_valid_signature")
+    # the verification itself: verify(identity key, concat[DOMAIN, static DH key], received signature)
+    sw = [bi for bi in f.live if f.switch_info(bi) and any(sig_test(x) for x in mir.walk(f.switch_info(bi)[0]))]
+    hoisted = [l for l in S.named_locals(f, sig_test)]
+    ctx.floor("finish", "is_some_and test", sw or hoisted, 1)
+    vsites = []          # (body, site, env)
+    for bi in sorted(f.live):
+        t = f.blocks[bi]["term"]
+        if t and t["k"] == "call":
+            e = f.call_expr(t, bi)
+            if re.search(VERIFY, strip_generics(e[1])):
+                vsites.append((f, mir.Site(f, bi), {}, None))
+            elif re.search(r"Option::is_some_and$", strip_generics(e[1])):
+                for c in [a for a in e[2] if a[0] == "closure"]:
+                    cl, env = S.closure_env(prog, f, c)
+                    ctx.use(cl)
+                    for s in cl.call_sites(VERIFY):
+                        vsites.append((cl, s, env, e))
+    ctx.floor("verify", "PublicKey::verify call", vsites, 1)
+    for b, s, env, outer in vsites:
+        e = S.subst_upvars(b.site_expr(s), env)
+        a0, a1, a2 = e[2]
+        ctx.ob("verify", "verified with the remote identity key", is_ok_of_self_field(a0, "id_remote_pubkey"), s.loc(), S.nrender(a0)[:160])
+        ctx.ob("verify", "message = DOMAIN ++ static DH key", signed_message(a1, dh_key), s.loc(), S.nrender(a1)[:220])
+        if outer is not None:
+            # closure of is_some_and over self.dh_remote_pubkey_sig: its parameter *is* the received signature
+            sig_ok = S.peel(a2)[0] == "arg" and S.peel(a2)[1] == 2
+            what = "closure parameter of is_some_and(self.dh_remote_pubkey_sig)"
+        else:
+            x = S.peel(S.norm(a2))
+            sig_ok = x[0] == "call" and x[1] == "ok" and S.self_field(x[2][0], "dh_remote_pubkey_sig")
+            what = "payload of self.dh_remote_pubkey_sig"
+        ctx.ob("verify", "signature is the received one", sig_ok, s.loc(), "%s: %s" % (what, S.nrender(a2)[:120]))
+        if outer is not None:
+            r0 = [b.site_expr(x) for x in S.ret_sites(b)]
+            ctx.ob("verify", "closure result is the verify() result", len(r0) == 1 and r0[0][0] == "call" and r0[0][3] == s.bb, "%s:%d" % (b.file, b.line), "is_valid_signature = id_pk.verify(..)")
     dom = prog.const(N, r"protocol::STATIC_KEY_DOMAIN$")
     ctx.ob("verify", "domain separation constant", dom.get("s") == "noise-libp2p-static-key:", msg="STATIC_KEY_DOMAIN = %r" % dom.get("s"))
     # sibling: into_authentic signs the same message
     ia = ctx.body(N, r"protocol::Keypair::into_authentic$")
     sg = ia.call_sites(r"libp2p_identity::Keypair::sign$")
     ctx.floor("sign", "Keypair::sign call", sg, 1)
+    kp = prog.adt(N, r"^libp2p_noise::protocol::Keypair$")
+    pub_fields = [fl["n"] for fl in kp["variants"][0]["fields"] if re.search(r"(^|::)PublicKey$", fl.get("ty", fl.get("t", "")) or "")]
     for s in sg:
-        a1 = render(ia.site_expr(s)[2][1])
-        ctx.ob("sign", "signed message = DOMAIN ++ own static DH key (same shape as verified)",
-               a1 == "<std::vec::Vec as std::ops::Deref>::deref(std::slice::concat(array{0: core::str::as_bytes(const:libp2p_noise::protocol::STATIC_KEY_DOMAIN), 1: libp2p_noise::<protocol::PublicKey as std::convert::AsRef>::as_ref(self.public)}))", s.loc(), a1[:220])
+        a1 = ia.site_expr(s)[2][1]
+
+        def own_public(k):
+            return k[0] == "field" and k[1][0] == "arg" and k[1][1] == 1 and (k[2] in pub_fields if pub_fields else k[2] == "public")
+        ctx.ob("sign", "signed message = DOMAIN ++ own static DH key (same shape as verified)", signed_message(a1, own_public), s.loc(), render(a1)[:220])
     # static key comes from the snow session
     it = ctx.body(N, r"io::framed::Codec::into_transport$")
     grs = it.call_sites(r"snow::HandshakeState::get_remote_static$")
     ctx.floor("origin", "get_remote_static", grs, 1)
     fs = it.call_sites(r"protocol::PublicKey::from_slice$")
-    ok = len(fs) == 1 and "get_remote_static(self.session)" in render(it.site_expr(fs[0]))
-    ctx.ob("origin", "static key = session.get_remote_static()", ok, fs[0].loc() if fs else "", render(it.site_expr(fs[0]))[:200] if fs else "")
-    okr = [mir.Site(it, x[1], x[2]) for x in it.defs[0] if x[0] == "stmt" and render(it.rvalue_expr(x[3])).startswith("std::result::Result::Ok{")]
-    for s in okr:
-        ctx.ob("origin", "into_transport returns that key", "from_slice(" in render(it.site_expr(s)), s.loc(), render(it.site_expr(s))[:200])
+    ok = len(fs) == 1 and S.has_call(it.site_expr(fs[0])[2][0], r"snow::HandshakeState::get_remote_static$")
+    ctx.ob("origin", "static key = session.get_remote_static()", ok, fs[0].loc() if fs else "", S.nrender(it.site_expr(fs[0]))[:200] if fs else "")
+    for s in S.ok_sites(it):
+        tup = dict(it.site_expr(s)[4]).get("0")
+        k0 = dict(tup[4]).get("0") if tup and tup[0] == "agg" else None
+        x = S.peel(S.norm(k0)) if k0 else None
+        ctx.ob("origin", "into_transport returns that key", x is not None and x[0] == "call" and x[1] == "ok" and S.has_call(x[2][0], r"protocol::PublicKey::from_slice$"), s.loc(), S.nrender(it.site_expr(s))[:200])
     mt = ctx.body(N, r"io::handshake::map_into_transport$")
-    okr = [mir.Site(mt, x[1], x[2]) for x in mt.defs[0] if x[0] == "stmt" and render(mt.rvalue_expr(x[3])).startswith("std::result::Result::Ok{")]
-    for s in okr:
-        ctx.ob("origin", "map_into_transport forwards the key", "Codec::into_transport(" in render(mt.site_expr(s)) and "@Continue.0.0" in render(mt.site_expr(s)), s.loc(), render(mt.site_expr(s))[:200])
+    for s in S.ok_sites(mt):
+        tup = dict(mt.site_expr(s)[4]).get("0")
+        k0 = dict(tup[4]).get("0") if tup and tup[0] == "agg" else None
+        x = S.peel(S.norm(k0)) if k0 else None
+        ok = (x is not None and x[0] == "field" and x[2] == "0" and x[1][0] == "call" and x[1][1] == "ok" and S.has_call(x[1][2][0], r"Codec::into_transport$"))
+        ctx.ob("origin", "map_into_transport forwards the key", ok, s.loc(), S.nrender(mt.site_expr(s))[:200])
     # received identity: recv_identity stores decoded key + signature from the same payload
     ri = ctx.body(N, r"io::handshake::recv_identity::\{closure#0\}$", "coroutine")
     w = ri.field_write_sites("id_remote_pubkey")
     ctx.floor("recv", "id_remote_pubkey store", w, 1)
     for s in w:
-        r = render(ri.site_expr(s))
-        ctx.ob("recv", "identity key decoded from the received payload", "PublicKey::try_decode_protobuf(" in r and ".identity_key" in r, s.loc(), r[:200])
+        e = ri.site_expr(s)
+        ctx.ob("recv", "identity key decoded from the received payload", S.has_call(e, r"PublicKey::try_decode_protobuf$") and S.has_field(e, "identity_key"), s.loc(), S.nrender(e)[:200])
     w = ri.field_write_sites("dh_remote_pubkey_sig")
     for s in w:
-        r = render(ri.site_expr(s))
-        ctx.ob("recv", "signature taken from the received payload", ".identity_sig" in r, s.loc(), r[:160])
+        e = ri.site_expr(s)
+        ctx.ob("recv", "signature taken from the received payload", S.has_field(e, "identity_sig"), s.loc(), S.nrender(e)[:160])
     whok = set()
     whos = set()
     for b in prog.bodies(N):
@@ -109,26 +182,50 @@ def check(ctx):
             if prev is not None:
                 lib.precedes(ctx, "upgrade", "%s: %s after %s" % (role, st, prev[0]), co, prev[1], lib.bbs(cs), "message order of the XX pattern")
             prev = (st, lib.bbs(cs))
+
+        def fin_part(e, idx):
+            x = S.peel(S.norm(e))
+            return (x[0] == "field" and x[2] == idx and x[1][0] == "call" and x[1][1] == "ok" and x[1][2][0][0] == "call"
+                    and re.search(r"handshake::State::finish$", strip_generics(x[1][2][0][1])) is not None)
         tp = co.call_sites(r"libp2p_identity::PublicKey::to_peer_id$")
-        ok = len(tp) == 1 and "State::finish(" in render(co.site_expr(tp[0])) and "@Continue.0.0" in render(co.site_expr(tp[0]))
-        ctx.ob("upgrade", role + ": peer id derived from finish()'s key", ok, tp[0].loc() if tp else "", render(co.site_expr(tp[0]))[:200] if tp else "")
-        okr = [mir.Site(co, x[1], x[2]) for x in co.defs[0] if x[0] == "stmt" and render(co.rvalue_expr(x[3])).startswith("std::result::Result::Ok{")]
-        for s in okr:
-            r = render(co.site_expr(s))
-            ctx.ob("upgrade", role + ": Ok((peer_id, io)) from finish", "to_peer_id(" in r and "@Continue.0.1" in r, s.loc(), r[:200])
+        ok = len(tp) == 1 and fin_part(co.site_expr(tp[0])[2][0], "0")
+        ctx.ob("upgrade", role + ": peer id derived from finish()'s key", ok, tp[0].loc() if tp else "", S.nrender(co.site_expr(tp[0]))[:200] if tp else "")
+        for s in S.ok_sites(co):
+            tup = dict(co.site_expr(s)[4]).get("0")
+            parts = dict(tup[4]) if tup and tup[0] == "agg" else {}
+            p0 = S.peel(parts.get("0", ("unknown", "")))
+            ok = (p0[0] == "call" and re.search(r"PublicKey::to_peer_id$", strip_generics(p0[1])) is not None and fin_part(p0[2][0], "0")
+                  and "1" in parts and fin_part(parts["1"], "1"))
+            ctx.ob("upgrade", role + ": Ok((peer_id, io)) from finish", ok, s.loc(), S.nrender(co.site_expr(s))[:200])
     # Output::new only in finish
     who = {s.body.npath for s in prog.callers(N, r"^libp2p_noise::io::Output::new$")}
     ctx.ob("who", "Output::new only in State::finish", who == {f.npath}, msg=str(sorted(who)))
     who = {s.body.npath for s in prog.callers(N, r"io::handshake::State::finish$")}
     ctx.ob("who", "finish only from the two upgrades", len(who) == 2 and all("upgrade_" in w for w in who), msg=str(sorted(who)))
-    # prologue
+    # ---- prologue: the field the public `with_prologue` setter stores is what both roles pass on, at the position the builder uses
+    wp = ctx.body(N, r"^libp2p_noise::Config::with_prologue$")
+    pf = set()
+    for bi in wp.live:
+        for st in wp.blocks[bi]["stmts"]:
+            if st["k"] == "assign" and st["p"].get("pr") and st["p"]["l"] == 1:
+                fl = [pr["n"] for pr in st["p"]["pr"] if pr["k"] == "field"]
+                if fl and S.has(wp.rvalue_expr(st["r"]), lambda x: x[0] == "arg" and x[1] == 2):
+                    pf.add(fl[-1])
+    for s in wp.agg_sites(r"^libp2p_noise::Config$"):
+        for fn, fe in wp.site_expr(s)[4]:
+            if fe[0] == "arg" and fe[1] == 2:
+                pf.add(fn)
+    ctx.ob("prologue", "floor:with_prologue stores its argument", len(pf) == 1, nontrivial=False, msg=str(sorted(pf)))
+    pfield = next(iter(pf)) if len(pf) == 1 else "prologue"
+    pos = set()
     for fn in ("into_responder", "into_initiator"):
         b = ctx.body(N, r"^libp2p_noise::Config::%s$" % fn)
         cs = b.call_sites(r"protocol::noise_params_into_builder$")
-        ok = len(cs) == 1 and render(b.site_expr(cs[0])[2][1]).endswith("(self.prologue)") or (len(cs) == 1 and "self.prologue" in render(b.site_expr(cs[0])[2][1]))
-        ctx.ob("prologue", fn + " passes the configured prologue", ok, cs[0].loc() if cs else "", render(b.site_expr(cs[0])[2][1])[:120] if cs else "")
+        at = [i for i, a in enumerate(b.site_expr(cs[0])[2]) if S.self_field(a, pfield)] if len(cs) == 1 else []
+        pos |= set(at)
+        ctx.ob("prologue", fn + " passes the configured prologue", len(at) == 1, cs[0].loc() if cs else "", render(b.site_expr(cs[0]))[:160] if cs else "")
     nb = ctx.body(N, r"protocol::noise_params_into_builder$")
     pc = nb.call_sites(r"snow::Builder::prologue$")
-    ok = len(pc) == 1 and "prologue" in render(nb.site_expr(pc[0])[2][1])
+    ok = len(pc) == 1 and len(pos) == 1 and S.is_arg(S.peel(nb.site_expr(pc[0])[2][1]), next(iter(pos)) + 1)
     ctx.ob("prologue", "builder.prologue(prologue)", ok, pc[0].loc() if pc else "", render(nb.site_expr(pc[0]))[:160] if pc else "")
-    lib.expect_count(ctx, "prologue", "prologue set on every Ok path", nb, [0], [mir.Site(nb, x[1], x[2]).bb for x in nb.defs[0] if x[0] == "stmt"], lib.bbs(pc), (1, 1), "builder.prologue before Ok(builder)")
+    lib.expect_count(ctx, "prologue", "prologue set on every Ok path", nb, [0], [s.bb for s in S.ok_sites(nb)], lib.bbs(pc), (1, 1), "builder.prologue before Ok(builder)")
